@@ -41,7 +41,15 @@ impl HWorld {
         self.ctxs.len()
     }
 
+    /// abs(), with a panic of the engine (for instance a handle that points nowhere) as data
     pub fn abs(&self, c: usize) -> Value {
+        match catch_unwind(AssertUnwindSafe(|| self.abs_inner(c))) {
+            Ok(v) => v,
+            Err(_) => json!({"sch": self.sch_of.get(c - 1).copied().unwrap_or(0), "vals": [], "lists": [], "alive": true, "panic": true}),
+        }
+    }
+
+    fn abs_inner(&self, c: usize) -> Value {
         match &self.ctxs[c - 1] {
             Some(ctx) => {
                 let sid = self.sch_of[c - 1];
